@@ -116,3 +116,32 @@ claim("C15", "property-based testing: reference cost from the definition (indepe
       "log-prior minus p-norm of data minus DOP853 simulation (1e-5), -inf outside the support, repetition and "
       "permutation invariance; the stochastic cost against a replay of the identical seeded SSA runs.",
       _TB + "; scipy's DOP853; for the stochastic cost bioscrape's own SSA on fresh models", "DESIGN.md section 4 C15")
+
+claim("C08", "property-based testing: generated call histories against a build-at-once reference (model-based, Hypothesis)",
+      "14k (quick) / 150k (thorough) call histories (incremental edits in random order incl. temporary values and "
+      "unknown names, py_initialize, seeded/unseeded simulations in eight modes, interface construction, simulations "
+      "through remembered and stale interfaces, re-seeding) are executed on a real Model next to an abstract definition; "
+      "every seeded simulation and 2..4 final modes are compared with a model built at once by the constructor "
+      "(identical stochastic output, 1e-9 deterministic, also with permuted species declaration), two seeded runs are "
+      "identical, dictionaries are unchanged by simulating, stale interfaces must raise or give the current result.",
+      _TB, "DESIGN.md section 4 C08")
+
+claim("C17", "property-based testing: generated models / lineage models / result objects, clone round trip with behavioural comparator and seeded-simulation differential (Hypothesis)",
+      "Plain models over every propensity, expression-node, delay and rule class (1.6k quick / 30k thorough), lineage "
+      "models over every volume / division / death rule and event type and splitter option (700 / 12k) and result "
+      "objects from real simulations (1.5k / 30k: SSAResult, DelaySSAResult + queue, VolumeSSAResult, cell states, "
+      "Schnitz, Lineage, ExperimentalLineage, SingleCellSSAResult) are cloned by pickle protocols 2..5, deepcopy and "
+      "chains of them, before and after edits and simulations, initialised or not; oracle: behavioural model comparator "
+      "(incl. stochastic rate forms via the guarded probes), identical seeded simulations (deterministic, SSA, safe, "
+      "volume, delay, single cell, lineage tree), seeded splitter partitions, event propensities and counts, identity "
+      "and mutuality of mother/daughter links inside the restored object, and independence after edits on either side.",
+      _TB + "; the guarded probes py_verif_* expose the cdef stochastic rate methods unchanged", "DESIGN.md section 4 C17")
+
+claim("C19", "property-based testing: generated splitters / mother states and generated lineage models, exact partition and per-row invariants + statistical differential vs the binomial law (Hypothesis)",
+      "4k (quick) / 60k (thorough) splitter configurations x mothers x repeated partitions with exact conservation / "
+      "duplication / perfect-rounding / volume identities; 480 / 6000 configurations x 10k / 40k seeded partitions "
+      "against Binomial(n, volume fraction) (chi-square or randomized PIT + KS, two-stage); 3k / 60k seeded lineages and "
+      "2k / 40k single-cell runs over every growth / division / death mechanism incl. models whose total propensity is "
+      "zero: mutual links, daughters = a valid partition of the mother's last row at her division time, contiguous time "
+      "axes, positive volume and conserved per-cell totals on every row, growth law followed after reactions die out, "
+      "truncation <=> division/death flag.", _TB, "DESIGN.md section 4 C19")
